@@ -39,6 +39,8 @@ func chunkCheck(h *rt.H, c *codec, doc []byte, cuts []bool) {
 				}
 			}
 			_, errW = p.Write(chunk)
+			// the chunk is the caller's: a parser reads it and never writes it (C15, C19)
+			h.Assert("chunk-unmodified", rt.BytesEq(chunk, doc[start:i+1]))
 			// the caller may reuse its buffer as soon as Write returns
 			for j := range chunk {
 				chunk[j] = 0xAA
@@ -88,11 +90,18 @@ func shapedDocRep(h *rt.H, c *codec, r *repChoice) []byte {
 		if h.Param("CHAIN", 0) > 0 {
 			maxRep = 1
 		}
+		mixc := h.Param("MIXC", 0) == 1
 		switch c {
 		case cborCodec:
-			r.rep, r.indef = h.Choose("rep", 0, maxRep), h.Choose("indef", 0, 1)
+			r.rep = h.Choose("rep", 0, maxRep)
+			if !mixc {
+				r.indef = h.Choose("indef", 0, 1)
+			}
 		case ubjsonCodec:
-			r.rep, r.container = h.Choose("rep", 0, maxRep), h.Choose("container", 0, 3)
+			r.rep = h.Choose("rep", 0, maxRep)
+			if !mixc {
+				r.container = h.Choose("container", 0, 3)
+			}
 		default:
 			r.ws = h.Choose("ws", 0, maxRep)
 			r.esc = h.Choose("esc", 0, h.Param("ESC", 0))
@@ -102,7 +111,8 @@ func shapedDocRep(h *rt.H, c *codec, r *repChoice) []byte {
 	case cborCodec:
 		// REP=0: one width choice per document for lengths and integers; REP=1: the
 		// width of every integer is chosen separately
-		o := gen.CBOROpts{Width: []int{0, 1, 2, 4, 8}[r.rep], Indef: r.indef == 1, IntW: r.rep}
+		// MIXC=1: the container style is chosen per container instead of per document
+		o := gen.CBOROpts{Width: []int{0, 1, 2, 4, 8}[r.rep], Indef: r.indef == 1, IntW: r.rep, Mixed: h.Param("MIXC", 0) == 1}
 		if h.Param("REP", 0) == 1 {
 			o.IntW = -1
 		}
@@ -112,6 +122,9 @@ func shapedDocRep(h *rt.H, c *codec, r *repChoice) []byte {
 		o := gen.UBJOpts{Container: r.container, LenMarker: m, IntMarker: m}
 		if o.Container == 3 {
 			o.Container, o.Noop = 0, true
+		}
+		if h.Param("MIXC", 0) == 1 {
+			o.Container = -1
 		}
 		if h.Param("REP", 0) == 1 {
 			o.IntMarker = 0
